@@ -53,7 +53,7 @@ func caseGen() *rapid.Generator[Case] {
 	key := rapid.Custom(func(t *rapid.T) gen.Item {
 		return gen.S(gen.StringOf([]string{"k", "h1", "h2", "h3", "name", "x y"}, 1, 2).Draw(t, "key"))
 	})
-	sg := gen.ScriptGen(gen.ScriptOpts{Item: itemGen(), HdrItem: key, MinOps: 1, MaxOps: max, MaxCells: 3, HdrCells: [2]int{1, 5}, ForceHdr: true, AllowMutate: true, AllowCopy: true,
+	sg := gen.ScriptGen(gen.ScriptOpts{AllowProps: true, AllowRowErr: true, Item: itemGen(), HdrItem: key, MinOps: 1, MaxOps: max, MaxCells: 3, HdrCells: [2]int{1, 5}, ForceHdr: true, AllowMutate: true, AllowCopy: true,
 		Creators: []string{"core", "core", "csv", "texttable", "markdown", "json", "html"}})
 	return rapid.Custom(func(t *rapid.T) Case {
 		c := Case{Script: sg.Draw(t, "script")}
@@ -63,8 +63,13 @@ func caseGen() *rapid.Generator[Case] {
 		// a small palette of styles per case so that formats repeat
 		palette := rapid.SliceOfN(rapid.SampledFrom(Styles), 1, 3).Draw(t, "palette")
 		for i := 0; i < n; i++ {
-			kind := rapid.IntRange(0, 9).Draw(t, "kind")
-			if kind == 9 {
+			kind := rapid.IntRange(0, 11).Draw(t, "kind")
+			if kind == 10 {
+				c.Acts = append(c.Acts, Act{K: "restyle", Style: rapid.SampledFrom(append(append([]string{}, TextStyles...), "nope", "utf8-lihgt")).Draw(t, "restyle"), Reuse: rapid.Bool().Draw(t, "by-object")})
+			} else if kind == 11 {
+				// a style that names nothing: the render fails, every time the same way, and changes nothing
+				c.Acts = append(c.Acts, Act{K: "render", Style: rapid.SampledFrom(UnknownStyles).Draw(t, "unknown-style"), Reuse: rapid.Bool().Draw(t, "reuse")})
+			} else if kind == 9 {
 				to := itemGen().Draw(t, "to")
 				c.Acts = append(c.Acts, Act{K: "mutate", Op: &gen.Op{K: "mutate", Ref: rapid.IntRange(0, 5).Draw(t, "ref"), Cap: rapid.IntRange(0, 3).Draw(t, "cell"),
 					Items: []gen.Item{{K: "str", S: to.S, G: to.G, E: to.E, N: to.N}}}})
